@@ -4,7 +4,7 @@
 \* that step (harness/sleep_drv.cc: sstep):
 \*   pq      trees whose qpos the user changed since the previous step      forced  trees with non-zero applied force
 \*   nzv0    trees with a non-zero qvel entry before the step               slow    trees under the velocity tolerance
-\*   con     contact list after the step <<x, y, exclude>> (tree ids, -1 static, -2 mocap), in mjData order
+\*   con     contact list after the step <<x, y, exclude>> (tree ids, -1 static, -2 mocap body, -3 jointless body carried by a mocap body), in mjData order
 \*   eqs     equalities <<x, y, active>>
 \* and the observations after the step
 \*   ta      mjData.tree_asleep       isl  mjData.tree_island (-1 everywhere if there is no island)
@@ -43,7 +43,7 @@ EqSingle(t)  == \E b \in EqIdx : (t \in {Cur.eqs[b][1], Cur.eqs[b][2]} /\ ~IsPai
 LogSingles == {t \in Trees : ConSingle(t) \/ EqSingle(t)}
 
 TInit == /\ tid \in 1..NTr /\ TLCSet(tid, 0) /\ TLCSet(NTr + tid, {}) /\ l = 1
-         /\ ta = Fn0(Traces[tid].hdr.ta0) /\ geo = {} /\ eqact = << >> /\ user = NoUser /\ frc = NoTree /\ mtouch = NoTree
+         /\ ta = Fn0(Traces[tid].hdr.ta0) /\ geo = {} /\ eqact = << >> /\ user = NoUser /\ frc = NoTree /\ mtouch = NoTouch
          /\ phase = "env" /\ ev = [ph |-> "init"] /\ aw0 = TRUE
 EnvVars == <<geo, eqact, user, frc, mtouch>>
 
@@ -60,7 +60,7 @@ PairCount(s, x, y) == Cardinality({i \in 1..Len(s) : {s[i][1], s[i][2]} = {x, y}
 ContactsComplete ==
   LET st == [t \in Trees |-> ev.before[t + 1] < 0]
       tw == FirstPass([i \in 1..Len(Cur.contw) |-> <<Cur.contw[i][1], Cur.contw[i][2]>>], st)
-      ends == Trees \cup {World, Mocap}
+      ends == Trees \cup {World, Mocap, Carried}
   IN \A x, y \in ends : PairCount(LogCon, x, y) = PairCount(tw, x, y)
 \* clauses of the property that the recorded step violates, given the array a2 the specification computes
 Failed(a2) ==
